@@ -19,7 +19,8 @@
 (* as long as a series is known every field keeps its type, even without any value left.   *)
 EXTENDS Integers, Sequences, FiniteSets, TLC
 
-CONSTANTS Fields, Types, Series, MaxBatch, MaxWrites, MaxT, MaxV, MaxDrops, MaxReopens
+CONSTANTS Fields, Types, Series, MaxBatch, MaxWrites, MaxT, MaxV, MaxDrops, MaxReopens,
+          IndexPersistent   \* TRUE: tsi1 (the index survives a reopen as it is); FALSE: inmem (rebuilt from the data)
 
 NoType == "none"
 None == [ty |-> NoType, v |-> -1]
@@ -90,7 +91,11 @@ DropAll ==
 
 \* cache -> file, close + open: no logical change, the field map survives (fields.idx)
 Flush == /\ UNCHANGED <<ftype, stored, known>> /\ last' = NoLast /\ cnt' = [cnt EXCEPT !.r = @ + 1]
-Reopen == /\ UNCHANGED <<ftype, stored, known>> /\ last' = NoLast /\ cnt' = [cnt EXCEPT !.r = @ + 1]
+\* Reopen: the inmem index is rebuilt from the stored keys, so a series that a dropped point left
+\* behind without data is gone afterwards; the tsi1 index keeps it (calibrated against the code).
+Reopen == /\ UNCHANGED <<ftype, stored>>
+          /\ known' = IF IndexPersistent THEN known ELSE {s \in known : \E c \in Cell : c[1] = s /\ stored[c] # None}
+          /\ last' = NoLast /\ cnt' = [cnt EXCEPT !.r = @ + 1]
 
 Next == \/ \E b \in Batches(MaxBatch) : WriteBatch(b)
         \/ \E s \in Series : DeleteSeries(s)
